@@ -129,26 +129,21 @@ class _ToGen(ast.NodeTransformer):
         return self._gen(node, ast.Tuple(elts=[node.key, node.value], ctx=ast.Load()))
 
 
-def run_pipeline(model, source, rename_locals=True, rename_globals=False, preserve_locals=(), preserve_globals=()):
-    from ..absnodes import set_parents, std_hooks
-    from ..absprint import print_obj, to_obj
-    mod = to_obj(ast.parse(source))
-    set_parents(mod)
-    hooks = dict(std_hooks(), **{'dir': lambda I, e, args, kw, env: dir(builtins)})
-    I = Interp(model, MAPPER, hooks, max_depth=600)
-    I.MAX_PATHS = 8
+class MinifyRaises(Exception):
+    """minify() (or the printer, on the module minify() produced) raises on a valid probe module: a finding, not an analysis problem."""
 
-    def thunk():
-        I.call_function(MAPPER + '.add_namespace', [mod])
-        I.call_function(R + 'bind_names.bind_names', [mod])
-        I.call_function(R + 'resolve_names.resolve_names', [mod])
-        I.call_function(R + 'util.allow_rename_locals', [mod, rename_locals, list(preserve_locals)])
-        I.call_function(R + 'util.allow_rename_globals', [mod, rename_globals, list(preserve_globals)])
-        I.call_function(R + 'renamer.rename', [mod], {'prefix_globals': not rename_globals, 'preserved_globals': list(preserve_globals)})
-    res = I.explore(thunk)
-    if len(res) != 1 or res[0][0][0] != 'return':
-        raise AnalysisError('UNDECIDED: renaming pipeline on a probe -> %s %s' % ([r[0] for r in res][:2], res[0][2][:3]))
+
+def run_pipeline(model, source, rename_locals=True, rename_globals=False, preserve_locals=(), preserve_globals=()):
+    """minify() itself, evaluated with only the renaming options on; the module it hands to the printer is printed by the repository's printer."""
+    from ..absprint import print_obj
+    from ..minrun import minify_tree
+    kind, _tree, mod = minify_tree(model, source, {'rename_locals': rename_locals, 'rename_globals': rename_globals, 'preserve_locals': list(preserve_locals),
+                                                   'preserve_globals': list(preserve_globals)})
+    if kind != 'ok':
+        raise MinifyRaises('minify() raises %s' % (_tree,))
     kind, text = print_obj(model, mod)
+    if kind == 'raise':
+        raise MinifyRaises('the printer raises %s on the renamed module' % (text,))
     if kind != 'ok':
         raise AnalysisError('UNDECIDED: printing the renamed probe: %s %s' % (kind, text))
     return text
@@ -218,6 +213,7 @@ def _walk_pairs(a, b, path, counters, out, problems):
         seq(ann_a, ann_b, path)
         seq(a.decorator_list, b.decorator_list, path)
         inner = child_scope(a.name)
+        out.append((a.name, b.name, inner, 'decorators:' + ','.join(ast.unparse(d) for d in a.decorator_list)))
         for grp in ('posonlyargs', 'args', 'kwonlyargs'):
             xs, ys = getattr(aa, grp), getattr(ba, grp)
             if len(xs) != len(ys):
@@ -307,6 +303,12 @@ def _walk_pairs(a, b, path, counters, out, problems):
         elif a.name is not None:
             ident(a.name, b.name, 'capture')
         return
+    if type(a).__name__ in ('TypeVar', 'ParamSpec', 'TypeVarTuple'):
+        ident(a.name, b.name, 'typeparam')
+        for f in a._fields:
+            if f != 'name' and isinstance(getattr(a, f, None), ast.AST):
+                _walk_pairs(getattr(a, f), getattr(b, f), path, counters, out, problems)
+        return
     if isinstance(a, ast.MatchMapping):
         seq(a.keys, b.keys, path)
         seq(a.patterns, b.patterns, path)
@@ -360,8 +362,8 @@ def _strip_rebinds(out_tree, orig_names, orig_tree=None):
     return aliases
 
 
-def judge(source, text, rename_globals=False, preserve_locals=(), preserve_globals=()):
-    """-> list of problems"""
+def judge(source, text, rename_globals=False, preserve_locals=(), preserve_globals=(), light=False):
+    """-> list of problems. light: structure and consistency only (for probes whose scopes the symbol-table oracle does not model: type parameters)."""
     orig = ast.parse(source)
     try:
         out = ast.parse(text)
@@ -372,6 +374,8 @@ def judge(source, text, rename_globals=False, preserve_locals=(), preserve_globa
     problems = []
     pairs = []
     _walk_pairs(orig, out, (), {}, pairs, problems)
+    decorators_at = {p[2]: p[3][len('decorators:'):] for p in pairs if p[3].startswith('decorators:')}
+    pairs = [p for p in pairs if not p[3].startswith('decorators:')]
     if problems:
         return problems[:4]
     scope_of = _scope_of_names(orig)
@@ -385,7 +389,7 @@ def judge(source, text, rename_globals=False, preserve_locals=(), preserve_globa
         ys2 = {aliases.get(y, y) if aliases.get(y, y) == x else y for y in ys}
         if len(ys2 - {x}) > 1:
             problems.append('the occurrences of %s are renamed inconsistently: %s' % (x, sorted(ys)))
-    if problems:
+    if problems or light:
         return problems[:4]
     final = {}
     for x, ys in new_of.items():
@@ -436,7 +440,8 @@ def judge(source, text, rename_globals=False, preserve_locals=(), preserve_globa
             # renaming in the signature is only legitimate for the implicit first parameter of a method / classmethod
             owner_is_class = path[:-1] in class_names
             first = [p for p in pairs if p[2] == path and p[3].startswith('parameter:')]
-            if not (owner_is_class and first and first[0][0] == x and role == 'parameter:args'):
+            implicit = decorators_at.get(path) in ('', 'classmethod')      # a plain method or a classmethod: the first parameter is supplied by the call itself
+            if not (owner_is_class and implicit and first and first[0][0] == x and role == 'parameter:args'):
                 problems.append('parameter %s (callers may pass it by keyword) is renamed to %s in the signature' % (x, y))
     # names added at module level
     for new, old in aliases.items():
@@ -480,7 +485,7 @@ CONFIGS = [('rename_locals', dict(rename_locals=True, rename_globals=False)), ('
 
 
 def run(model, rep, rule='C03.E2E', only=None):
-    fi = model.func(R + 'renamer.rename')
+    fi = model.func('python_minifier.minify')
     n_renamed = 0
     for label, source in sorted(PROBES.items()):
         try:
@@ -491,7 +496,11 @@ def run(model, rep, rule='C03.E2E', only=None):
         for (clabel, cfg) in CONFIGS:
             if only is not None and clabel not in only:
                 continue
-            text = run_pipeline(model, source, **cfg)
+            try:
+                text = run_pipeline(model, source, **cfg)
+            except MinifyRaises as ex:
+                rep.violation(rule, fi.loc(), 'probe `%s`, %s' % (label, clabel), '%s: minify fails on a valid module' % ex, key='%s|%s|%s' % (rule, label, clabel))
+                continue
             problems = judge(source, text, rename_globals=cfg.get('rename_globals', False), preserve_locals=cfg.get('preserve_locals', ()), preserve_globals=cfg.get('preserve_globals', ()))
             if cfg.get('rename_locals') and text != run_pipeline.__dict__.get('_noop'):
                 n_renamed += 1
@@ -502,3 +511,135 @@ def run(model, rep, rule='C03.E2E', only=None):
             rep.check(not problems, rule, fi.loc(), 'probe `%s`, %s' % (label, clabel), 'same structure, every binding renamed consistently, no two bindings of one name meet, interface names untouched',
                       '; '.join(problems[:3]) + ' -- output: %r' % text[:140], key='%s|%s|%s' % (rule, label, clabel))
     rep.floor(rule, 12 if only is None else 4)
+
+
+# ---------------------------------------------------------------------- every binding form of the grammar
+# (class, field) of the ASDL -> probe in which the name l_old / g_old is bound by that form and mentioned again
+FORM_PROBES = {
+    ('Name', 'id'): ['def f():\n    l_old = 1\n    return l_old + l_old\n', 'def f():\n    l_old = 1\n    del l_old\n', 'def f(x):\n    for l_old in x:\n        yield l_old, l_old\n',
+                     'def f(x):\n    with x as l_old:\n        return l_old, l_old\n', 'def f(x):\n    if (l_old := x):\n        return l_old, l_old\n',
+                     'def f(x):\n    return [l_old * l_old for l_old in x]\n', 'g_old = 1\nprint(g_old, g_old)\n'],
+    ('FunctionDef', 'name'): ['def f():\n    def l_old():\n        return 1\n    return l_old() + l_old()\n', 'def g_old():\n    return 1\nprint(g_old(), g_old)\n'],
+    ('AsyncFunctionDef', 'name'): ['def f():\n    async def l_old():\n        return 1\n    return l_old(), l_old\n'],
+    ('ClassDef', 'name'): ['def f():\n    class l_old:\n        pass\n    return l_old(), l_old\n', 'class g_old:\n    pass\nprint(g_old(), g_old)\n'],
+    ('alias', 'asname'): ['def f():\n    import os as l_old\n    return l_old.a + l_old.b\n', 'def f():\n    from os import path as l_old\n    return l_old.a + l_old.b\n', 'import os as g_old\nprint(g_old.a, g_old.b)\n'],
+    ('alias', 'name'): ['def f():\n    import l_old\n    return l_old.a + l_old.b\n', 'def f():\n    from m import l_old\n    return l_old.a + l_old.b\n', 'def f():\n    import l_old.sub\n    return l_old.sub.a + l_old.b\n',
+                        'import g_old\nprint(g_old.a, g_old.b)\n'],
+    ('arg', 'arg'): ['def f(l_old):\n    return l_old + l_old + l_old\n', 'def f(*l_old):\n    return l_old + l_old\n', 'def f(**l_old):\n    return l_old, l_old\n', 'def f(a, /, l_old=1, *, k_old=2):\n    return l_old + l_old + k_old + k_old\n',
+                     'def f(l_old, /):\n    return l_old + l_old\n', 'f = lambda l_old: l_old + l_old\n', 'class K:\n    def m(self_old, x):\n        return self_old.a + self_old.b + x\n'],
+    ('ExceptHandler', 'name'): ['def f():\n    try:\n        pass\n    except E as l_old:\n        return l_old, l_old\n', 'try:\n    pass\nexcept E as g_old:\n    print(g_old, g_old)\n'],
+    ('Global', 'names'): ['g_old = 0\ndef f():\n    global g_old\n    g_old = 1\n    return g_old\n', 'def f():\n    global g_old, g_other\n    g_old = g_other = 1\nprint(g_old, g_other)\n'],
+    ('Nonlocal', 'names'): ['def f():\n    l_old = 1\n    def g():\n        nonlocal l_old\n        l_old = 2\n        return l_old\n    return g, l_old\n'],
+    ('MatchAs', 'name'): ['def f(x):\n    match x:\n        case [1, 2] as l_old:\n            return l_old, l_old\n        case l_other:\n            return l_other, l_other\n'],
+    ('MatchStar', 'name'): ['def f(x):\n    match x:\n        case [1, *l_old]:\n            return l_old, l_old\n'],
+    ('MatchMapping', 'rest'): ['def f(x):\n    match x:\n        case {1: 2, **l_old}:\n            return l_old, l_old\n'],
+    ('TypeVar', 'name'): ['def f[T_old](a: T_old) -> T_old:\n    l_old: T_old = a\n    return l_old, l_old\n', 'class K[T_old]:\n    def m(self, x: T_old) -> T_old:\n        return x\n'],
+    ('ParamSpec', 'name'): ['def f[**T_old](a: Callable[T_old, int]):\n    l_old = a\n    return l_old, l_old\n'],
+    ('TypeVarTuple', 'name'): ['def f[*T_old](*a: *T_old):\n    l_old = a\n    return l_old, l_old\n'],
+}
+LIGHT = {'TypeVar', 'ParamSpec', 'TypeVarTuple'}
+
+
+def forms(model, rep, rule, binding_fields):
+    """Exhaustiveness over the grammar: every ASDL field that holds a bound identifier has probes, and renaming them end to end keeps the program
+    alpha-equivalent. binding_fields: the (class, field) pairs of the ASDL the property is about."""
+    fi = model.func('python_minifier.minify')
+    renamed = 0
+    for (c, f) in sorted(binding_fields):
+        if (c, f) not in FORM_PROBES:
+            raise AnalysisError('binding identifier field %s.%s of the grammar has no probe in the form table' % (c, f))
+        for i, source in enumerate(FORM_PROBES[(c, f)]):
+            label = '%s.%s probe %d `%s`' % (c, f, i + 1, source.strip().replace('\n', '; ')[:70])
+            key = '%s|form|%s.%s|%d' % (rule, c, f, i + 1)
+            try:
+                ast.parse(source)
+            except SyntaxError:
+                rep.note('%s: this interpreter cannot parse the probe %s' % (rule, label))
+                continue
+            try:
+                text = run_pipeline(model, source, rename_locals=True, rename_globals=True)
+            except MinifyRaises as ex:
+                rep.violation(rule, fi.loc(), label, '%s: minify fails on a valid module that binds a name with %s' % (ex, c), key=key)
+                continue
+            problems = judge(source, text, rename_globals=True, light=c in LIGHT)
+            names = {n for n in ('l_old', 'g_old', 'k_old', 'self_old', 'l_other', 'g_other') if n in source}
+            gone = {n for n in names if n not in text}
+            renamed += bool(gone)
+            rep.check(not problems, rule, fi.loc(), '%s -> %r' % (label, text[:60]), 'alpha-equivalent (%s)' % ('renamed: %s' % sorted(gone) if gone else 'name kept'),
+                      'renaming a name bound by %s.%s breaks the program: %s -- output %r' % (c, f, '; '.join(problems[:2]), text[:140]), key=key)
+    rep.count('binding_forms_renamed', renamed)
+    if renamed < 20:
+        raise AnalysisError('only %d of the binding-form probes are renamed at all: the form rule has lost its sensitivity' % renamed)
+
+
+def final_names(source, text):
+    """name in the original -> set of spellings its occurrences have in the output (re-binding aliases resolved)."""
+    orig, out = ast.parse(source), ast.parse(text)
+    orig_names = {n.id for n in ast.walk(orig) if isinstance(n, ast.Name)} | {n.arg for n in ast.walk(orig) if isinstance(n, ast.arg)}
+    aliases = _strip_rebinds(out, orig_names, orig)
+    pairs, problems = [], []
+    _walk_pairs(orig, out, (), {}, pairs, problems)
+    new_of = {}
+    for (x, y, _path, role) in pairs:
+        if role.startswith('decorators:'):
+            continue
+        new_of.setdefault(x, set()).add(aliases.get(y, y) if aliases.get(y) == x else y)
+    return new_of, problems
+
+
+def keep_names(model, rep, rule, label, source, must_keep, why):
+    """The probe is renamed with both renaming options on; the names in must_keep keep their spelling at every occurrence and the result is alpha-equivalent."""
+    fi = model.func('python_minifier.minify')
+    key = '%s|%s' % (rule, label)
+    try:
+        text = run_pipeline(model, source, rename_locals=True, rename_globals=True)
+    except MinifyRaises as ex:
+        rep.violation(rule, fi.loc(), label, '%s: minify fails on a valid module' % ex, key=key)
+        return
+    problems = judge(source, text, rename_globals=True)
+    rep.check(not problems, rule, fi.loc(), '%s, renamed with both options on' % label, 'alpha-equivalent, interface names untouched', '; '.join(problems[:3]) + ' -- output: %r' % text[:140], key=key)
+    new_of, _p = final_names(source, text)
+    n_renamed = sum(1 for x, ys in new_of.items() if ys != {x})
+    for name in sorted(must_keep):
+        ys = new_of.get(name)
+        if ys is None:
+            raise AnalysisError('probe %s: the name %s does not occur' % (label, name))
+        rep.check(ys == {name}, rule, fi.loc(), '%s: %s -> %s' % (label, name, sorted(ys)), 'keeps its spelling (%s)' % why.get(name, ''),
+                  '%s is renamed to %s although it must keep its spelling: %s' % (name, sorted(ys - {name}), why.get(name, '')), key='%s|%s' % (key, name))
+    if n_renamed < 5:
+        raise AnalysisError('probe %s: only %d names are renamed at all: the probe has lost its sensitivity' % (label, n_renamed))
+
+
+def signatures(model, rep, rule, kinds, sigs):
+    """Every function kind x signature shape, renamed end to end: a parameter callers can pass by keyword keeps its spelling in the signature."""
+    fi = model.func('python_minifier.minify')
+    in_place = 0
+    for kname, tpl in sorted(kinds.items()):
+        for (sig, names, pkinds) in sigs:
+            use = ', '.join(names * 3)
+            source = tpl.replace('{SIG}', sig).replace('{USE}', use)
+            label = '%s with signature (%s)' % (kname, sig)
+            key = '%s|%s|%s' % (rule, kname, sig)
+            try:
+                text = run_pipeline(model, source, rename_locals=True, rename_globals=False)
+            except MinifyRaises as ex:
+                rep.violation(rule, fi.loc(), label, '%s: minify fails on a valid module' % ex, key=key)
+                continue
+            problems = judge(source, text)
+            new_of, _p = final_names(source, text)
+            try:
+                out_sig = [n for n in ast.walk(ast.parse(text)) if isinstance(n, (ast.FunctionDef, ast.AsyncFunctionDef)) and n.name == 'f']
+                a = out_sig[0].args
+                sig_names = [x.arg for x in a.posonlyargs + a.args + ([a.vararg] if a.vararg else []) + a.kwonlyargs + ([a.kwarg] if a.kwarg else [])]
+            except (SyntaxError, IndexError):
+                sig_names = list(names)
+            for n_, k_ in pkinds.items():
+                if n_ not in sig_names:
+                    in_place += 1
+                    if k_ in ('arg', 'kwonly') and not (n_ == names[0] and kname in ('method', 'async method', 'classmethod', 'method of a nested class')):
+                        problems.append('the %s parameter %s is renamed in the signature' % (k_, n_))
+            rep.check(not problems, rule, fi.loc(), '%s -> %r' % (label, text[:70]), 'keyword-callable parameters keep their spelling in the signature; the body is alpha-equivalent',
+                      '; '.join(problems[:3]) + ' -- output: %r' % text[:160], key=key)
+    rep.count('parameters_renamed_in_place', in_place)
+    if in_place < 10:
+        raise AnalysisError('only %d parameters are renamed in the signature on the probes: the signature rule has lost its sensitivity' % in_place)
